@@ -73,3 +73,28 @@ Lemma ex_rejects_cycle :
                  {| m_name := "B"; m_params := []; m_ports := []; m_items := [IInst "A" [] "i_a" []] |} ] = [("instantiation_cycle", "", "")].
 Proof. vm_compute. reflexivity. Qed.
 
+
+(* a synchronous memory in the shape of SynchronousMemory.verilogBody: accepted, in the fragment, elaborates (one net per word) *)
+Definition ex_mem_design : design :=
+  [ {| m_name := "Mem"; m_params := [];
+       m_ports := [ pin DIn 1 "clk"; pin DIn 2 "ra"; pin DIn 2 "wa"; pin DIn 1 "we"; pin DIn 8 "wd"; pin DOut 8 "rd" ];
+       m_items := [ IMem "mem" 8 4; IReg "rr" 8 None;
+                    IAlways (EvPos "clk") (SSeq (SIf (EId "we") (SNba (LIdx "mem" (EId "wa")) (EId "wd")) SSkip)
+                                                (SNba (LId "rr") (EBit "mem" (EId "ra"))));
+                    IAssign (LId "rd") (EId "rr") ] |} ].
+
+Lemma ex_mem_accepted : wf_design [] ex_mem_design = true.
+Proof. vm_compute. reflexivity. Qed.
+
+Lemma ex_mem_fragment : vsem_fragment ex_mem_design.
+Proof.
+  intros m [<-|[]]; (split; [reflexivity|]); intros it H; simpl in H;
+    repeat (destruct H as [<-|H]; [simpl; auto|]); contradiction.
+Qed.
+
+Lemma ex_mem_elaborates : exists f, elaborate ex_mem_design (elab_fuel ex_mem_design) "Mem" = inr f.
+Proof.
+  apply (elab_total_checked ex_mem_design ex_mem_accepted ex_mem_fragment (nth 0 ex_mem_design {| m_name := ""; m_params := []; m_ports := []; m_items := [] |})).
+  - now left.
+  - apply le_n.
+Qed.
